@@ -23,6 +23,8 @@ def sh(cmd, cwd=None, env=None, timeout=7200):
 def main():
     src, sid = os.path.abspath(sys.argv[1]), sys.argv[2]
     prop = sid.split("-")[0]
+    if "--check-prop" in sys.argv:          # the property whose check is run, when it is not the one in the seed id
+        prop = sys.argv[sys.argv.index("--check-prop") + 1]
     wt = "/tmp/sv-" + sid
     sub = os.path.relpath(src, os.path.dirname(os.path.dirname(src)))  # "out/1"
     sh("git -C /repo worktree remove --force %s" % wt)
@@ -69,6 +71,7 @@ def main():
             viol = [l for l in r.stdout.splitlines() if l.startswith("VIOLATION")]
             res["check_thorough"] = {"exit": r.returncode, "violation_lines": len(viol), "sites": [l.split("site=")[1].split(" cases=")[0] for l in viol if "site=" in l][:12]}
         res["detected_by_quick"] = detected
+        res["checked_with_property"] = prop
         dst = os.path.join(V, "seeded", sid)
         shutil.rmtree(dst, ignore_errors=True)
         os.makedirs(dst)
